@@ -193,7 +193,12 @@ def oracle(case, r):
     for j, n in enumerate(inc['normals']):
         nv = [Fraction(a, b) for a, b in n]
         A2 = varea2([xyz[i] for i in facets[j]])
-        if sum(nv[k] * A2[k] for k in range(3)) <= 0 or abs(sum(x * x for x in nv) - 1) > Fraction(1, 2 ** 30):
+        nn = sum(x * x for x in nv)
+        aa = sum(x * x for x in A2)
+        na = sum(nv[k] * A2[k] for k in range(3))
+        # unit length, along the exact area vector of the stored orientation (sin^2 <= 2^-40: relative
+        # to the facet, not to the distance from the origin)
+        if na <= 0 or abs(nn - 1) > Fraction(1, 2 ** 30) or (nn * aa - na * na) * 2 ** 40 > nn * aa:
             bad.append(('normal', {'facet': list(facets[j])}))
             break
     return bad[:6]
@@ -229,17 +234,42 @@ def gen_cases(ctx):
             sc = SCALES[1 + (k // 2) % (len(SCALES) - 1)]
             c['scale'] = list(sc)
             c['meta'] = dict(c['meta'], scale='%d/%d' % sc)
+        # far from the origin: exact integer offsets of 1e6..1e7 cell sizes (also combined with the small
+        # scales). Facets, signs and normals are translation-invariant (C12_translation_invariant), so the
+        # model runs on the mesh at the origin; the normal tolerance stays 2^-40 (sin^2 of the angle),
+        # i.e. relative to the local scale — the centroid-shifted kernels deliver ~1e-16 there
+        if (k // 2) % 3 == 2:
+            c['offset'] = [rng.choice([-1, 1]) * rng.randint(2 * 10 ** 6, 2 * 10 ** 7) for _ in range(3)]
+            c['meta'] = dict(c['meta'], offset='1e6..1e7')
+            # integer / dyadic coordinates of this size still multiply exactly in binary64; realistic
+            # far-away coordinates (UTM metres with centimetre cells) do not: use a decimal scale on
+            # most of the offset cases (each coordinate is then rounded once, |p| * 2^-53, far inside
+            # the tolerance relative to the cell size)
+            if k % 4 != 0:
+                sc = [(1, 20), (1, 1000), (1, 10000), (1, 10)][(k // 6) % 4]
+                c['scale'] = list(sc)
+                c['meta'] = dict(c['meta'], scale='%d/%d' % sc)
         cases.append(c)
     for kind in ['hex', 'tet']:
         for aff in c10_gen.AFFINE[:3]:
             m = c10_gen.gen_mesh(rng, kind=kind, dims=(1, 1, 1), affine=aff)
             cases.append({'nodes': m['nodes'], 'blocks': m['blocks'], 'meta': m['meta'], 'valid': True})
     # same-object stream: compute, move the mesh in place, compute again on the SAME object
-    for k in range(10 if ctx.tier == 'quick' else 120):
+    for k in range(15 if ctx.tier == 'quick' else 150):
         m = c10_gen.gen_mesh(rng, kind=kinds[k % 2], dims=rng.choice([(2, 1, 1), (2, 2, 1), (2, 2, 2)]),
                              warp=rng.choice([None, 'frustum']), max_elems=16)
         c = {'nodes': m['nodes'], 'blocks': m['blocks'], 'meta': m['meta'], 'valid': True}
-        if k % 2 == 0:
+        if k % 3 == 2:
+            # query the plain incidence / adjacency first, then re-order the connectivity rows in place
+            # (fem_data.elements.data = data[perm]); ids keep their storage slots
+            typ = next(iter(m['blocks']))
+            es = m['blocks'][typ]
+            perm = list(range(len(es)))
+            rng.shuffle(perm)
+            c['move'] = {'kind': 'permute', 'perm': perm, 'adjacency': bool(k % 2)}
+            c['moved_nodes'] = [[i, list(p)] for i, p in m['nodes']]
+            c['moved_blocks'] = {typ: [[es[j][0], es[perm[j]][1]] for j in range(len(es))]}
+        elif k % 2 == 0:
             ax, turn, fn = API_MOVES[(k // 2) % len(API_MOVES)]
             t = (rng.randint(-6, 6), rng.randint(-6, 6), rng.randint(-6, 6))
             c['move'] = {'kind': 'api', 'axis': list(ax), 'turn': list(turn), 'translate': list(t)}
@@ -284,7 +314,8 @@ def expand_moved(cases, res):
         got = [[Fraction(*x) for x in row] for row in im['moved_xyz']]
         if any(abs(g - e) > Fraction(1, 10 ** 9) for gr, er in zip(got, exp) for g, e in zip(gr, er)):
             hist.append((c['id'], 'moved_coordinates', None))
-        c2 = {'id': len(cases) + len(extra), 'nodes': c['moved_nodes'], 'blocks': c['blocks'],
+        c2 = {'id': len(cases) + len(extra), 'nodes': c['moved_nodes'],
+              'blocks': c.get('moved_blocks', c['blocks']), 'orig_blocks': c['blocks'],
               'meta': dict(c['meta'], stage='second_call_after_in_place_move', first_case=c['id']),
               'valid': True, 'want': c['want'], 'move': c['move'], 'orig_nodes': c['nodes'],
               'derived': True}
@@ -312,7 +343,7 @@ def judge(case, r):
     if c10.is_err(im):
         return [('raises', im.get('msg'))]
     bad = oracle(case, {'incidence': im['first']})
-    moved = dict(case, nodes=case['moved_nodes'])
+    moved = dict(case, nodes=case['moved_nodes'], blocks=case.get('moved_blocks', case['blocks']))
     exp = [p for _, p in case['moved_nodes']]
     got = [[Fraction(*x) for x in row] for row in im['moved_xyz']]
     if any(abs(g - e) > Fraction(1, 10 ** 9) for gr, er in zip(got, exp) for g, e in zip(gr, er)):
@@ -332,11 +363,14 @@ def judge(case, r):
 def signature(case, check):
     return {'check': check, 'kind': case['meta'].get('kind'), 'warp': case['meta'].get('warp'),
             'types': sorted(case['blocks']), 'scale': case['meta'].get('scale', '1'),
+            'offset': case['meta'].get('offset', '0'),
             'history': case['meta'].get('same_object', 'single_call')}
 
 
 def shrink(ctx, case, still_fails, budget=8):
     cur = case
+    if (case.get('move') or {}).get('kind') == 'permute':
+        return cur          # the permutation refers to the element rows: reported unshrunk
     for _ in range(budget):
         cands = []
         for typ, es in cur['blocks'].items():
@@ -421,6 +455,7 @@ def main(ctx):
     for c in cases:
         meta = c['meta']
         ctx.count('scale:' + str(meta.get('scale', '1')))
+        ctx.count('offset:' + str(meta.get('offset', '0')))
         ctx.count('history:' + str(meta.get('stage', meta.get('same_object', 'single_call'))))
         ctx.count('kind:' + str(meta.get('kind')))
         ctx.count('warp:' + str(meta.get('warp')))
@@ -468,8 +503,8 @@ def main(ctx):
         ob = judge(dict(small, id=0), rr)
         ctx.violation('impl-violation',
                       {'nodes': small['nodes'], 'blocks': small['blocks'], 'meta': c['meta'],
-                       'scale': small.get('scale'), 'move': small.get('move'),
-                       'moved_nodes': small.get('moved_nodes'),
+                       'scale': small.get('scale'), 'offset': small.get('offset'), 'move': small.get('move'),
+                       'moved_nodes': small.get('moved_nodes'), 'moved_blocks': small.get('moved_blocks'),
                        'shrunk_from_elements': sum(len(v) for v in c['blocks'].values())},
                       'each cell incident to exactly its faces; interior facets two cells with opposite signs; '
                       'sign = outward orientation; sum sign*A = 0; (1/3) sum sign*A.centre = volume',
@@ -483,8 +518,9 @@ def main(ctx):
         what = 'scratch file did not compile' if chks is None else ','.join(chks)
         inc = res[cid].get('incidence')
         ctx.violation('correspondence',
-                      {'nodes': c.get('orig_nodes', c['nodes']), 'blocks': c['blocks'], 'meta': c['meta'],
-                       'scale': c.get('scale'), 'move': c.get('move'),
+                      {'nodes': c.get('orig_nodes', c['nodes']), 'blocks': c.get('orig_blocks', c['blocks']),
+                       'meta': c['meta'], 'scale': c.get('scale'), 'offset': c.get('offset'),
+                       'move': c.get('move'), 'moved_blocks': c['blocks'] if c.get('derived') else c.get('moved_blocks'),
                        'moved_nodes': c['nodes'] if c.get('derived') else c.get('moved_nodes')},
                       'model = implementation on ' + what,
                       {'failing_checks': chks, 'impl_error': inc if c10.is_err(inc) else None},
@@ -511,10 +547,13 @@ def replay(path):
     ctx = lib.Ctx(PID, 'quick')
     case = {'id': 0, 'nodes': c['nodes'], 'blocks': c['blocks'], 'meta': c.get('meta', {}),
             'want': ['incidence'], 'valid': True}
-    if c.get('scale'):
-        case['scale'] = c['scale']
+    for k in ('scale', 'offset'):
+        if c.get(k):
+            case[k] = c[k]
     if c.get('move'):
         case.update(move=c['move'], moved_nodes=c['moved_nodes'], want=['incidence_moved'])
+        if c.get('moved_blocks'):
+            case['moved_blocks'] = c['moved_blocks']
     r = c10.run_impl(ctx, [case], tag='replay')[0]
     bad = judge(case, r)
     print('implementation:', json.dumps(r.get('incidence') or r.get('incidence_moved'))[:1500])
